@@ -47,7 +47,8 @@ def gen(rng, tier, i):
                         'vals': [rng.randrange(8) for _ in range(rng.randint(1, 5))]})
     return {'script': script, 'm': m, 'sims': sims, 'cycles': cycles, 'vals': [rng.randrange(8) for _ in range(rng.randint(3, 23))],
             'knobs': {'c_reuse': rng.random() < 0.4, 'strip_forks': rng.random() < 0.4}, 'api': rng.choice(['explicit', 'cycle', 'cycle']), 'inj': inj,
-            'cb_style': rng.choice(['function', 'function', 'falsy_object', 'partial', 'method']), 'call_form': rng.choice(['keyword', 'positional'])}
+            'cb_style': rng.choice(['function', 'function', 'falsy_object', 'partial', 'method']), 'call_form': rng.choice(['keyword', 'positional']),
+            'cb_return': rng.choice(['none', 'none', 'none', 'true', 'zero', 'line', 'array'])}
 
 
 def evaluated_lines(circuit, strip):
@@ -167,7 +168,7 @@ def execute(case):
     events0 = []
     t = lsim.make(c, sims, m, knobs['c_reuse'], knobs['strip_forks'])
     lsim.assign(t, mva)
-    t_in, t_out = drive(t, wrap_callback(lambda line, view: events0.append(operator.index(line)), case.get('cb_style', 'function')), case['api'])
+    t_in, t_out = drive(t, wrap_callback(lambda line, view: events0.append(operator.index(line)), case.get('cb_style', 'function'), case.get('cb_return', 'none')), case['api'])
     res.probe('untouched_callback_run')
     for cy in range(cycles):
         if not np.array_equal(t_out[cy], ref_out[cy]):
@@ -196,7 +197,7 @@ def execute(case):
             for lane in range(sims):
                 if mask[lane]: set_lane(view, lane, vals[lane], mdim)
             res.fault('F-inj')
-    run_in, run_out = drive(sim, wrap_callback(cb, case.get('cb_style', 'function')), case['api'])
+    run_in, run_out = drive(sim, wrap_callback(cb, case.get('cb_style', 'function'), case.get('cb_return', 'none')), case['api'])
     # back to the fault-free responses WITHOUT assigning again: the input slots are intact after a propagation, so a plain
     # c_prop() on the same object evaluates everything anew (an injection lives as long as the call it was passed to)
     if cycles == 1 and case['api'] != 'cycle':
@@ -294,9 +295,16 @@ def execute(case):
     return res
 
 
-def wrap_callback(f, style):
+def wrap_callback(f, style, ret='none'):
     """Any callable is a legal callback: a plain function, a functools.partial, a bound method, or a callable object whose
-    truth value happens to be False (e.g. an empty list subclass used as recorder)."""
+    truth value happens to be False (e.g. an empty list subclass used as recorder).  What it returns is its own business
+    (a recorder's `dict.setdefault(...)`, an injector's 'did I inject' flag): the values are changed in place only."""
+    if ret != 'none':
+        f0 = f
+
+        def f(line, view):
+            f0(line, view)
+            return True if ret == 'true' else 0 if ret == 'zero' else line if ret == 'line' else np.zeros_like(view)
     if style == 'falsy_object':
         class Recorder(list):
             def __call__(self, line, view): return f(line, view)
